@@ -9,6 +9,9 @@ RULE = ("every string up to length 5 (thorough 6) over the 14-symbol core alphab
         "pipeline (CommandLine::from_line: tokenizer, seven expansion passes, env draining, pipe splitting, redirections) in-process under "
         "catch_unwind and a fork watchdog; random lines/token lists over a wider alphabet through every single pass; "
         "the interactive highlighter (highlight ranges in bytes) on every string <= 4 (thorough 5) over a 16-symbol alphabet with quotes, escapes, operators, builtin names, multi-byte letters and multi-byte white space, and on random lines; "
+        "process level: random and mutated lines (also repeated up to a few hundred characters) through `cicada -c` under a 20 s watchdog (exit by panic or signal = crash); key "
+        "sequences of printable multi-byte text, editing keys and TAB typed on a pseudo-terminal without being submitted, and submitted lines of harmless words with unbalanced quotes / "
+        "dangling operators, each abandoned with Ctrl-C, after which a sentinel command must run; "
         "non-trivial = distinct inputs on which the model takes a non-default outcome (error, panic, hang) or produces >= 2 tokens/commands")
 
 
@@ -92,7 +95,98 @@ def generate(tier, rng):
     return cases
 
 
+NOTES = []
+KEYS = ["a", "b", "c", "d", " ", " ", "'", '"', "\\", "|", "&", ";", ">", "<", "$", "(", ")", "{", "}", "*", "~", "#", "=", "é", "日", "\u3000", "ü", "😀", "\t", "\t",
+        "\x01", "\x05", "\x02", "\x06", "\x0b", "\x15", "\x17", "\x7f", "\x7f", "\x1b[D", "\x1b[C", "\x1b[A", "\x1b[B", "\x1b[H", "\x1b[F", "\x1bb", "\x1bf", "\x14", "\x19"]
+SAFE_WORDS = ["argv", "argv a", "'x y'", '"q', "'", '"', "\\", "|", "||", "&&", ";", ">", "> f1", ">>", "2>&1", "<", "<<<", "$A", "${A", "$(", ")", "(", "{a,b}", "{1..3}", "*", "~",
+              "#", "é", "日本", "a=b", "1 + 2", "2 ^ 70", "cd", "alias", "export A=1", "\u3000", "`", "\\\n"]
+
+
+def process(tier, rng, cicada):
+    """the real binary under a watchdog: (1) random and mutated lines with -c; (2) key sequences typed on a pseudo-terminal (the line
+    editor, the highlighter and the completer run on every keystroke), abandoned with Ctrl-C, then a sentinel command must still run"""
+    import os, subprocess
+    from .. import proc
+    from . import c20
+    r = rng.fork("c05-p")
+    sb = proc.Sandbox("c05")
+    n = 160 if tier == "quick" else 4000
+    cases = []
+    for i in range(n):
+        line = gens.rand_line(r, 6)
+        if r.chance(1, 3):                                   # mutation: drop / double / swap characters
+            k = r.below(max(1, len(line)))
+            m = r.below(3)
+            line = line[:k] + (line[k + 1:] if m == 0 else (line[k:k + 1] * 2 + line[k + 1:] if m == 1 else line[k + 1:k + 2] + line[k:k + 1] + line[k + 2:]))
+        if r.chance(1, 20):
+            line = line * (2 + r.below(20))                  # long lines (up to a few hundred characters)
+        if "`" in line or "$(" in line or "\x00" in line or not line.strip():
+            continue     # (substitution is driven by C11's streams: a scripted output that spells $(...) loops -- KF-C11-output-rescanned)
+        c = Case("alive", [hx(line)], {"gen": "p", "kind": "-c"})
+        c.id = "p%d" % i
+        cases.append(c)
+
+    def one(c):
+        line = core.unhx(c.fields[0])
+        d = os.path.join(sb.dir, c.id)
+        os.makedirs(d)
+        try:
+            p = subprocess.run([cicada, "-c", line], cwd=d, env=sb.env({"A": "va"}), stdin=subprocess.DEVNULL, stdout=subprocess.PIPE, stderr=subprocess.PIPE, timeout=20)
+        except subprocess.TimeoutExpired:
+            return c.id, "HANG (20 s) on -c"
+        if p.returncode < 0 or p.returncode in (101, 134, 139) or b"panicked at" in p.stderr:
+            return c.id, "PANIC rc=%s %s" % (p.returncode, p.stderr.decode("utf-8", "replace")[-160:].replace("\n", " "))
+        return c.id, "returns"
+
+    impl = dict(proc.pmap(one, cases))
+    # (2) key sequences
+    m = 21 if tier == "quick" else 450
+    kcases = []
+    for i in range(m):
+        if i % 3 == 2:
+            # completion probes: a word (plain, multi-byte start, open quote, escaped blank) ending in something a completer
+            # claims ($NAME, ~/, ./, a path prefix, `..`, a command-name prefix), then TAB once or twice; never submitted
+            pieces = []
+            for _ in range(1 + r.below(4)):
+                pieces.append(r.choice(["", "", "é", "日本", "a", "'x", '"y', "a\\ ", "ü=", "x/", "😀"]) +
+                              r.choice(["$", "$HO", "$A", "$_", "~", "~/", "./", "di", "dir/", "dir/i", "f", "f\\ ", "..", "../", "*", "{a,", "ar", "mak", "ssh ", "cd d", "vox e"]))
+                pieces += r.choice([["\t"], ["\t", "\t"], ["\t", "\x1b[D", "\t"]])
+                pieces.append(" ")
+        elif i % 3 == 0:
+            pieces = [r.choice(KEYS) for _ in range(5 + r.below(60))]                                # editing only: never submitted
+        else:
+            pieces = [" ".join(r.choice(SAFE_WORDS) for _ in range(1 + r.below(6))) + "\r" for _ in range(1 + r.below(4))]   # submitted lines of harmless words
+        keys = "\x00".join(pieces)      # (the pieces are typed one by one: a burst would be read as pasted text and TAB would not complete)
+        c = Case("alive", [hx(keys)], {"gen": "p", "kind": "keys"})
+        c.id = "k%d" % i
+        kcases.append(c)
+
+    def one_keys(ic):
+        i, c = ic
+        keys = core.unhx(c.fields[0])
+        helpers = os.path.join(core.BUILD, "helpers")
+        # Ctrl-C abandons whatever is being edited (also a continuation prompt); only the helper directory is on PATH
+        rows, recs, err = c20.pty_session(cicada, sb, 5000 + i, [("f one", False), ("dir", True), ("dir/in", False)], keys.split("\x00") + ["\x03"], {"PATH": helpers, "A": "va"})
+        if err:
+            # a crash of the line editor / completer is deterministic: the session is typed a second time before it is reported
+            rows, recs, err2 = c20.pty_session(cicada, sb, 7000 + i, [("f one", False), ("dir", True), ("dir/in", False)], keys.split("\x00") + ["\x03"], {"PATH": helpers, "A": "va"})
+            if err2:
+                return c.id, "HANG/CRASH " + err2[:200]
+            NOTES.append("key session %s failed once (%s) and passed when typed again" % (c.id, err[:80]))
+        return c.id, "returns"
+
+    impl.update(dict(proc.pmap(one_keys, list(enumerate(kcases)), workers=8)))
+    sb.cleanup()
+    return [("alive", cases + kcases, impl)]
+
+
+def post(rep):
+    rep.notes.extend(NOTES[:10])
+
+
 def nontrivial(c, M, S, g, cls):
+    if c.stream == "alive":
+        return ("alive", c.meta.get("kind"), tuple(c.fields))
     if M in ("PANIC", "HANG") or M.startswith("err") or M.count(",") >= 1 or M.count(";") >= 1:
         return (c.stream, tuple(c.fields))
     return None
